@@ -4,6 +4,8 @@ package main
 // (across visit orders, across the two modes, across repeated executions).
 
 import (
+	z "github.com/Oudwins/zog"
+
 	"fmt"
 	"reflect"
 	"strings"
@@ -297,14 +299,41 @@ func copyExtras(n *eng.Node, dst *eng.D, src eng.D) {
 
 // streamAlias (C19): executions never modify the schema or the input; a second identical execution
 // gives the same result; the destination does not share memory with the schema's defaults.
+// d30Probe: the fixed scenario of known finding D30 (a CustomFunc schema of slice type hands the caller's
+// slice through to the destination; an enclosing PostTransform that edits the destination in place edits
+// the input). Returns true when the input was modified.
+func d30Probe() bool {
+	type D struct{ Tags []string }
+	s := z.Struct(z.Schema{"tags": z.CustomFunc(func(p *[]string, ctx z.Ctx) bool { return true })}).PostTransform(func(ptr any, ctx z.Ctx) error {
+		if d := ptr.(*D); len(d.Tags) > 0 {
+			d.Tags[0] = "MUTATED"
+		}
+		return nil
+	})
+	in := map[string]any{"tags": []string{"a", "b"}}
+	var d D
+	s.Parse(in, &d)
+	return in["tags"].([]string)[0] != "a"
+}
+
 func streamAlias(seed uint64, n int) (*Summary, error) {
 	sum := newSummary("alias", seed)
-	sum.Rule = "engine-stream cases biased to slice defaults and destination-mutating PostTransforms; each is run twice on ONE schema object with deep snapshots of the input before/after; non-trivial = the schema has a default, catch or PostTransform; distinct = distinct case line"
+	sum.Rule = "engine-stream cases with nested slice defaults and PostTransforms that modify the destination in place, one case in four the dedicated shape Validate(empty [][]T) on Slice(Slice(prim)).Default(nested); each is run twice on ONE schema object with deep snapshots of the input before/after; non-trivial = the schema has a default, catch or PostTransform; distinct = distinct case line"
 	root := rng.New(seed)
 	distinct := map[string]bool{}
+	if d30Probe() {
+		sum.Known["C19"] = appendUnique(sum.Known["C19"], "D30 a CustomFunc schema of slice/map type stores the caller's input value itself in the destination, so a PostTransform editing the destination in place edits Parse's input")
+		sum.Hist["known_D30_hits"]++
+	}
 	for i := 0; i < n; i++ {
-		g := &eng.Gen{R: root.Fork()}
-		c := g.Case(i)
+		g := &eng.Gen{R: root.Fork(), NestedDefaults: true}
+		var c *eng.Case
+		if i%4 == 3 {
+			c = g.AliasCase(i)
+			sum.Hist["nested_default_cases"]++
+		} else {
+			c = g.Case(i)
+		}
 		sum.Evaluations++
 		first, second, inputChanged := eng.RunTwice(c)
 		line := c.Line(first.Order)
